@@ -2,6 +2,7 @@ import LimnoriaModel.C18.Model
 import LimnoriaModel.C18.Plugin
 import LimnoriaModel.C18.Heap
 import LimnoriaModel.C18.HeapShapes
+import LimnoriaModel.C18.HeapHole
 import LimnoriaModel.C18.Loop
 import LimnoriaModel.Driver.Core
 namespace C18
@@ -186,10 +187,10 @@ def stepLine (st : St) : List String → Option (St × String)
     pure ({ st with hp := h }, encHeap h)
   | ["hpush", it] => do
     let e ← decHeapItem it
-    let h := Heap.heappush st.hp e
+    let h := Heap.heappushC st.hp e
     pure ({ st with hp := h }, encHeap h)
   | ["hpop"] =>
-    match Heap.heappop st.hp with
+    match Heap.heappopC st.hp with
     | none => some (st, "E")
     | some (e, h) => some ({ st with hp := h }, toString e.t ++ "/" ++ toString e.rid ++ "|" ++ encHeap h)
   | ["hfragile", n, k, off] => do
@@ -204,7 +205,7 @@ def stepLine (st : St) : List String → Option (St × String)
     let pick := if k' = 0 then pick else pick.take k'
     pure (st, toString all.length ++ "|" ++ ";".intercalate (pick.map fun (o, r) =>
       ",".intercalate (o.map toString) ++ "/" ++ toString r))
-  | ["hify"] => some ({ st with hp := Heap.heapify st.hp }, encHeap (Heap.heapify st.hp))
+  | ["hify"] => some ({ st with hp := Heap.heapifyC st.hp }, encHeap (Heap.heapifyC st.hp))
   | ["pnew", t] => do
     let t' ← t.toNat?
     pure ({ st with ps := Plug.pinit t' }, "ok\t-\t" ++ encPState (Plug.pinit t'))
